@@ -104,7 +104,7 @@ CHECKS["C14"] = {
              "spec compute.py is checked against under C02) as exact closed forms, the same column count on every return, "
              "symmetric padding, parameter name-flow without crossed wires through factory -> constructor -> attribute -> forward, "
              "matching reductions / doubling / log floor / energy, and that the wrappers delegate and re-wrap. Does NOT decide "
-             "numerical agreement to working precision, TorchScript semantics or the dither's distribution. Wave 10: the noise draw is PyTorchDither's only use of the process-wide generator over its call closure (torch.seed() re-seeds); a wrapper branch that returns without calling the wrapped object is reported; the NumPy constructor stores the bank's start bins and responses unmodified (a premise of from_stft_frame_computer, which copies them)."),
+             "numerical agreement to working precision, TorchScript semantics or the dither's distribution. Wave 10: the noise draw is PyTorchDither's only use of the process-wide generator over its call closure (torch.seed() re-seeds); a wrapper branch that returns without calling the wrapped object is reported; the (offset, filter) pairs from_stft_frame_computer hands over are evaluated together with what the NumPy constructor stores (checker's own interpreter, every DFT size 2..8, start bin, run length): they must be the bank's start bin and whole response."),
     "design_ref": "DESIGN.md §3 C14, §10.15",
     "note": NOTE_COMMON + "spect.size(1) of torch.fft.rfft(x, D, 1) = D//2+1 is taken from torch's documented contract.",
     "technique": "static analysis: closed-form twin comparison with the documented geometry, 4-hop name-flow, structural reduction/wrapper rules",
